@@ -49,13 +49,13 @@ def one_case(rng, tier):
         prog = g.program(min_async=1)
         for s in prog['nodes']:
             if s['op'] == 'sink' and rng.random() < 0.6:
-                s['kind'] = rng.choice(['coro', 'future', 'tornado'])
+                s['kind'] = rng.choice(['coro', 'future', 'tornado', 'awaitable'])
         return {'prog': prog, 'producers': g.producers(prog, max_total=16), 'awaiting': rng.random() < 0.7, 'exotic': True}
     g = aprogs.AGen(rng, async_ops=HOLDERS, max_nodes=7, fail_prob=0.15, p_async=0.5)
     prog = g.program(min_async=rng.choice([0, 1, 1, 2]))
     for s in prog['nodes']:
         if s['op'] == 'sink' and rng.random() < 0.6:
-            s['kind'] = rng.choice(['coro', 'future', 'tornado'])
+            s['kind'] = rng.choice(['coro', 'future', 'tornado', 'awaitable'])
     prods = g.producers(prog, max_total=16)
     return {'prog': prog, 'producers': prods, 'awaiting': rng.random() < 0.7}
 
